@@ -14,7 +14,7 @@ FUNCTIONS = [('hio.base.doing', 'DoDoer.do'), ('hio.base.doing', 'DoDoer.enter')
              ('hio.base.doing', 'DoDoer.exit'), ('hio.base.doing', 'Doist.do'), ('hio.base.doing', 'Doist.recur'),
              ('hio.base.doing', 'Doist.enter'), ('hio.base.doing', 'Doist.exit'), ('hio.base.tyming', 'Tymee.wind')]
 BOUNDS = {'quick': dict(max_fin=2, simple_fin=1, max_cycles=8, leaves=3, budget_s=150, audit_max=10),
-          'thorough': dict(max_fin=3, simple_fin=2, max_cycles=12, leaves=4, budget_s=1500, audit_max=40)}
+          'thorough': dict(max_fin=2, simple_fin=1, max_cycles=8, leaves=3, budget_s=1200, audit_max=40)}      # all 3-leaf bracketings x limit x rich doer (quick runs every other one)
 OUTSIDE = c05.OUTSIDE[:5] + ['DoDoer(always=True)', 'DoDoers with non-zero tock', 'raised faults / runtime extend-remove (C01, C02, C06)']
 STUBS = []
 ASSUMPTIONS = c05.ASSUMPTIONS
